@@ -52,7 +52,7 @@ def oracle(rep, p, prof, oc, rng):
     distinct = len(set(temps)) == len(temps)
     # order independence
     if len(p["holds"]) > 1:
-        q = dict(p); q["holds"] = list(p["holds"]); rng.shuffle(q["holds"])
+        q = dict(p); q["holds"] = list(p["holds"]); rng.shuffle(q["holds"]); q["container"] = rng.choice(["list", "tuple"])
         prof2 = np.asarray(gen_opcond.build(q, oc).tempProfile(dt), dtype=float)
         if len(prof2) != len(prof) or (np.abs(prof2 - prof) > eps).any():
             rep.violation("order-dependence equal-temps" if not distinct else "order-dependence",
@@ -108,6 +108,16 @@ def check(rep, tier):
             with impl.quiet():
                 op = gen_opcond.build(p, oc)
                 prof = np.asarray(op.tempProfile(p["dt"]), dtype=float)
+                # the profile is a function of the program: asking again (also at another step, or after the
+                # controlled-nucleation time was computed) must not change it
+                _ = op.tempProfile(1.0 if p["t_tot"] < 5000 else 7.0)
+                if rng.random() < 0.5:
+                    op.cnTemp = (p["start"] + p["end"]) / 2
+                    _ = op.cnt
+                prof_again = np.asarray(op.tempProfile(p["dt"]), dtype=float)
+                if len(prof_again) != len(prof) or (prof_again != prof).any():
+                    rep.violation("history-dependence", "a second tempProfile(dt) call on the same object returns a different profile for %s" % p,
+                                  dict(program=p, history=["tempProfile(dt)", "tempProfile(1)", "cnt?", "tempProfile(dt)"]))
         except Exception as e:
             rep.violation("crash %s" % type(e).__name__, "tempProfile raises %r for %s" % (e, p), dict(program=p, error=repr(e)))
             continue
